@@ -54,6 +54,11 @@ DISCIPLINE_TEXT = {
 
 # control classes declare their discipline in a class attribute _discipline = {...}
 GLOBAL_RNG_OK = {'Random', 'SystemRandom'}
+# objects with hidden mutable state: one per *pass* is fine, one per *view* is shared by its iterators
+STATEFUL_CTORS = {'random.Random', 'random.SystemRandom', 'itertools.count', 'itertools.cycle', 'itertools.tee',
+                  'builtin:iter', 'builtin:open', 'io.open', 'io.StringIO', 'io.BytesIO', 'tempfile.TemporaryFile',
+                  'tempfile.NamedTemporaryFile', 'pickle.Pickler', 'pickle.Unpickler', 'csv.reader', 'csv.writer',
+                  'codecs.getreader', 'codecs.getwriter'}
 GLOBAL_STATE_CALLS = {'os.chdir', 'os.putenv', 'os.unsetenv', 'locale.setlocale', 'random.seed',
                       'os.environ.update', 'os.environ.setdefault', 'os.environ.pop'}
 
@@ -319,8 +324,21 @@ def r12(ctx, rep, v):
             rep.violated('R1.2', init, 'self.%s = ...' % ev.info['attr'],
                          'the constructor stores a one-shot %s in self.%s: every pass after the first finds it '
                          'consumed / shared' % ('iterator' if its else 'open file', ev.info['attr']), ev.node)
+    # stateful helper objects created once per view and then shared by all its iterators
+    for attr, vals in v.attr_values.items():
+        for val in vals:
+            for n in ast.walk(val):
+                if isinstance(n, ast.Call):
+                    names = ctx.res.callee_names(init, n)
+                    hit = names & STATEFUL_CTORS
+                    if hit:
+                        bad = True
+                        rep.violated('R1.2', init, 'self.%s = %s' % (attr, norm(val)[:60]),
+                                     'the constructor creates one %s per view and stores it in self.%s: every iterator of the '
+                                     'view draws from / advances the same object, so interleaved iterators disturb each other '
+                                     '(create it per pass inside __iter__ instead)' % (sorted(hit)[0], attr), n)
     if not bad:
-        rep.held('R1.2', init, 'def __init__', 'stores no iterator or open file', init.node)
+        rep.held('R1.2', init, 'def __init__', 'stores no iterator, open file or per-view stateful helper', init.node)
 
 
 # ------------------------------------------------------------------------ R1.3
